@@ -182,7 +182,8 @@ struct Session
                     std::map<const XalanNode*, int>::iterator it = ids.find(l.item(i));
                     v.push_back(it == ids.end() ? -1 : it->second);
                 }
-                bool sorted = std::is_sorted(v.begin(), v.end());
+                // document order *and* duplicate-free: strictly increasing ids
+                bool sorted = std::adjacent_find(v.begin(), v.end(), [](int a, int b) { return a >= b; }) == v.end();
                 out << "NS";
                 for (size_t i = 0; i < v.size(); ++i) out << " " << v[i];
                 if (!sorted) out << " !order";
